@@ -48,6 +48,43 @@ func vfC03StubConn(v int, comp Compressor) (*Conn, *vfC03Writer, context.Context
 	return c, w, ctx
 }
 
+// vfC03Link is one stub connection that carries a SEQUENCE of requests: what an earlier
+// request leaves behind on the connection (pooled or cached objects, flags) meets the next one.
+type vfC03Link struct {
+	conn  *Conn
+	w     *vfC03Writer
+	v     int
+	comp  int
+	known map[int]bool // stream ids of the calls registered so far
+}
+
+// fresh returns the stream ids of the calls registered since the last look.
+func (l *vfC03Link) fresh() []int {
+	l.conn.mu.Lock()
+	defer l.conn.mu.Unlock()
+	out := []int{}
+	for k := range l.conn.calls {
+		if !l.known[k] {
+			out = append(out, k)
+			l.known[k] = true
+		}
+	}
+	return out
+}
+
+func vfC03NewLink(v, comp, occupy int) *vfC03Link {
+	var cp Compressor
+	if comp == 1 {
+		cp = vfC03Comp{}
+	}
+	conn, w, _ := vfC03StubConn(v, cp)
+	// occupy a seeded number of stream ids first so that the allocator hands out other ids than 1
+	for i := 0; i < occupy; i++ {
+		conn.streams.GetStream()
+	}
+	return &vfC03Link{conn: conn, w: w, v: v, comp: comp, known: map[int]bool{}}
+}
+
 // vfC03AuthGuard: does the handshake code refuse to answer an AUTHENTICATE in this version
 // before anything is written?  Returns the refusal text, "" if a frame went out (or the stub
 // could not carry the call).
@@ -70,9 +107,10 @@ func vfC03AuthGuard(v int) (msg string) {
 
 // vfC03ViaConn sends the logical request through the connection-level code.  ok=false when the
 // stub could not carry the request (the driver went into parts the literal does not have).
-func vfC03ViaConn(c *vfC03Case) (out []byte, errText string, ok bool) {
+func vfC03ViaConn(c *vfC03Case, l *vfC03Link) (out []byte, errText string, ok bool) {
 	defer func() {
 		if r := recover(); r != nil {
+			l.fresh()
 			if s := fmt.Sprint(r); len(s) > 0 && (c.Kind == "QUERY" || c.Kind == "EXECUTE" || c.Kind == "PREPARE" || c.Kind == "BATCH") {
 				// the builders refuse by panicking (keyspace < v5, payload < v4): that is exec's behaviour too
 				out, errText, ok = nil, "panic: "+s, true
@@ -81,16 +119,11 @@ func vfC03ViaConn(c *vfC03Case) (out []byte, errText string, ok bool) {
 			out, errText, ok = nil, "", false
 		}
 	}()
-	var comp Compressor
-	if c.Comp == 1 {
-		comp = vfC03Comp{}
-	}
-	conn, w, ctx := vfC03StubConn(c.V, comp)
-	defer conn.cancel()
-	// occupy a seeded number of stream ids first so that the allocator hands out other ids than 1
-	for i := 0; i < c.Stream; i++ {
-		conn.streams.GetStream()
-	}
+	conn, w := l.conn, l.w
+	comp := conn.compressor
+	ctx, cancel := context.WithCancel(context.Background())
+	defer cancel()
+	w.cancel, w.wrote, w.got = cancel, false, nil
 	var err error
 	s := &startupCoordinator{conn: conn, frameTicker: make(chan struct{}, 4)}
 	switch c.Kind {
@@ -133,21 +166,16 @@ func vfC03ViaConn(c *vfC03Case) (out []byte, errText string, ok bool) {
 		}
 		_, err = conn.exec(ctx, vfC03Builder(c), tr)
 	}
+	// the stream id the connection registered the new call under (not read from the frame)
+	fresh := l.fresh()
 	if w.wrote {
-		// the stream id the connection registered the call under (not read from the frame)
-		conn.mu.Lock()
-		n, id := 0, -1
-		for k := range conn.calls {
-			n, id = n+1, k
-		}
-		conn.mu.Unlock()
-		if n != 1 {
+		if len(fresh) != 1 {
 			return nil, "", false
 		}
-		c.Stream = id
+		c.Stream = fresh[0]
 		return w.got, "", true
 	}
-	if err == nil {
+	if err == nil || err == ErrNoStreams {
 		return nil, "", false
 	}
 	return nil, "error: " + err.Error(), true
@@ -161,9 +189,20 @@ func TestVfC03ConnPath(t *testing.T) {
 	defer o.close()
 	g := &vfC03Gen{r: rand.New(rand.NewSource(seed ^ 0x5eed)), id: 2000000}
 	skipped := 0
+	var link *vfC03Link
+	left := 0
 	for i := 0; i < n; i++ {
 		c := g.random()
 		c.Src = "conn"
+		if left == 0 { // a new connection for the next 1-4 requests
+			if link != nil {
+				link.conn.cancel()
+			}
+			link = vfC03NewLink(c.V, c.Comp, g.pick(0, 0, 1, 5, 60, 110))
+			left = g.pick(1, 2, 3, 4)
+		}
+		left--
+		c.V, c.Comp = link.v, link.comp
 		if i%4 == 0 { // more of the handshake messages than the random mix has
 			c.Kind = []string{"OPTIONS", "STARTUP", "AUTH_RESPONSE", "REGISTER"}[(i/4)%4]
 			c.Trace, c.Payload, c.Values, c.Ks, c.Pstate, c.Serial, c.Pagesize, c.Skipmeta = 0, nil, nil, nil, nil, 0, 0, 0
@@ -190,7 +229,7 @@ func TestVfC03ConnPath(t *testing.T) {
 				c.Smap = append(c.Smap, vfC03SKV{K: vfC03I([]byte("COMPRESSION")), V: vfC03I([]byte(vfC03Comp{}.Name()))})
 			}
 		}
-		c.Stream = g.pick(0, 0, 1, 5, 60, 126) // ids to occupy first
+		c.Stream = 0
 		vfC03Norm(c)
 		type res struct {
 			b  []byte
@@ -198,7 +237,7 @@ func TestVfC03ConnPath(t *testing.T) {
 			ok bool
 		}
 		ch := make(chan res, 1)
-		go func() { b, e, ok := vfC03ViaConn(c); ch <- res{b, e, ok} }()
+		go func(l *vfC03Link) { b, e, ok := vfC03ViaConn(c, l); ch <- res{b, e, ok} }(link)
 		var b []byte
 		var e string
 		var ok bool
@@ -206,7 +245,7 @@ func TestVfC03ConnPath(t *testing.T) {
 		case r := <-ch:
 			b, e, ok = r.b, r.e, r.ok
 		case <-time.After(20 * time.Second): // a request that never returns is not C03's subject
-			ok = false
+			ok, left = false, 0
 		}
 		if !ok {
 			skipped++
